@@ -1335,3 +1335,7 @@ mod test {
     }
     test_suite!(|| LinearBackend);
 }
+
+#[cfg(kani)]
+#[path = "/verif/kani/aranya-runtime/linear_mod.rs"]
+mod verif_kani;
